@@ -40,7 +40,8 @@ def call_tags(events, timed_out=False):
         if what == 'BEGIN':
             # busy iff the same call issues another BEGIN before any other statement, or times out here
             nxt = [w for (k, w) in events[idx + 1:] if k == 'sql']
-            busy = (nxt[:1] == ['BEGIN']) or (not nxt and timed_out)
+            rest = [(k, w) for (k, w) in events[idx + 1:] if k != 'sleep']
+            busy = (nxt[:1] == ['BEGIN']) or (timed_out and not nxt)
             tags.append('TBeginBusy' if busy else 'TBegin')
             in_txn = not busy
             body_open = False
@@ -59,27 +60,45 @@ def call_tags(events, timed_out=False):
             else:
                 tags.append('TSelect')
                 after_commit = False
+    if tags and tags[-1] == 'TBeginBusy':
+        tags.append('TReturn')            # gave up without a value file to remove
     return tags
 
 
-def check_term(tags, early=False):
-    return 'accepts %s [%s]' % ('true' if early else 'false', '; '.join(tags))
+def tags_from_shorts(shorts, timed_out=False):
+    """shorts: ['sql:BEGIN', 'file:create', ...] as recorded by the scheduler log"""
+    return call_tags([tuple(x.split(':', 1)) for x in shorts], timed_out)
+
+
+def check_term(tags, early=False, prefix=False):
+    return '%s %s [%s]' % ('accepts_prefix' if prefix else 'accepts', 'true' if early else 'false', '; '.join(tags))
 
 
 def check_traces(name, traces):
     """traces: list of (label, tags, early).  Returns list of labels whose trace is not accepted, errors."""
-    checks = [check_term(t, e) for (_, t, e) in traces]
+    checks = [check_term(t[1], t[2], t[3] if len(t) > 3 else False) for t in traces]
     bad, errors = fw.coq_mismatches(name, IMPORTS, '', checks, chunk=500)
     return [traces[i] for i in bad], errors
 
 
-def lock_discipline(log):
+def lock_discipline(log, calls=None):
     """log: [(cid, 'sql:BEGIN' | ..., detail)] in global order (scheduler log; a step is logged BEFORE it
     executes).  A BEGIN is successful iff the same client's next sql event is not another BEGIN.  Checks what
     the machine proves (lock_excludes, db_changes_only_by_commit): while one client is between its successful
     BEGIN and its COMMIT/ROLLBACK no other client is, and INSERT/UPDATE/DELETE on the Cache table happen only
     inside the client's own transaction.  Returns list of problem strings."""
     problems = []
+    failed = set()
+    for recs in calls or []:
+        for c in recs:
+            if c.get('exc') == 'Timeout' and c.get('last') is not None:
+                # the call gave up at its last BEGIN
+                for idx in range(min(c['last'], len(log) - 1), -1, -1):
+                    if log[idx][0] == c.get('client') and log[idx][1] == 'sql:BEGIN':
+                        failed.add(idx)
+                        break
+                    if log[idx][0] == c.get('client') and log[idx][1].startswith('sql:'):
+                        break
     # next sql event per position for each client
     nxt = {}
     last_idx = {}
@@ -92,7 +111,7 @@ def lock_discipline(log):
     for idx, (cid, what, _) in enumerate(log):
         if what == 'sql:BEGIN':
             ok = nxt.get(idx) not in ('sql:BEGIN', None) or (nxt.get(idx) is None and False)
-            if nxt.get(idx) is None:
+            if nxt.get(idx) is None or idx in failed:
                 ok = False          # the call ended at this BEGIN (Timeout) or the run stopped
             if ok:
                 if holder is not None and holder != cid:
